@@ -439,6 +439,57 @@ Section SenderProofs.
     apply andb_true_iff in E. destruct E as [_ E]. apply negb_true_iff, Z.eqb_neq in E. lia.
   Qed.
 
+  (** the emitted tokens cover the whole file (independent of legality) *)
+  Lemma send_one_rcov h' toks tr :
+    send_one H seed chunk h sums target = SOk h' toks tr ->
+    exists rt, toks = rev rt /\ rcov rt size /\ tr = filesum H seed target /\
+               ((h' = h /\ sums <> [] /\ size <> 0) \/ (h' = sum_sizes_sqroot size /\ Forall is_lit rt)).
+  Proof.
+    unfold send_one. intros E. change (lenZ target) with size in E.
+    assert (Hwhole : rcov (lit_chunks (length target) chunk target []) size /\
+                     Forall is_lit (lit_chunks (length target) chunk target [])).
+    { split; [|apply lit_chunks_lits; constructor].
+      replace size with (0 + lenZ target) by reflexivity.
+      apply lit_chunks_rcov; [constructor| |fold size; lia|lia].
+      rewrite dropZ_0, takeZ_all; [reflexivity|lia]. }
+    destruct sums as [|sb sums'] eqn:Esums.
+    - unfold send_whole in E. inversion E; subst. eexists. split; [reflexivity|].
+      destruct Hwhole. repeat split; auto.
+    - rewrite <- Esums in *.
+      destruct (size =? 0) eqn:Hsz.
+      + unfold send_whole in E. inversion E; subst. eexists. split; [reflexivity|].
+        destruct Hwhole. repeat split; auto.
+      + apply Z.eqb_neq in Hsz.
+        assert (Hsize : 0 < size) by (pose proof (lenZ_nonneg target) as Hnn; unfold size in *; lia).
+        destruct (read_chunk h size 0 target) as [[k a] b].
+        destruct (search H seed chunk h (tt_build sums 0 (PositiveMap.empty (list cand))) size
+                         (size + 1 - block_len h (h_count h - 1)) (S (length target))
+                         (mkS 0 k a b 0 target (dropZ k target) target []))
+          as [[[[lastm lmc] rtoks]|]|c] eqn:Hs; try discriminate.
+        inversion E; subst h' toks tr.
+        eapply search_sound in Hs.
+        * destruct Hs as [Hr Hlmc].
+          assert (Hfin : rcov (emit_lit chunk (size - lastm) lmc rtoks) (lastm + (size - lastm))).
+          { pose proof (rcov_le _ _ Hr). apply emit_lit_rcov; [exact Hr|exact Hlmc|lia|lia]. }
+          replace (lastm + (size - lastm)) with size in Hfin by lia.
+          eexists. split; [reflexivity|]. split; [exact Hfin|]. split; [reflexivity|].
+          left. split; [reflexivity|]. split; [rewrite Esums; discriminate|exact Hsz].
+        * intros t i s1 s2. apply tt_built_sound.
+        * pose proof (block_len_pos (h_count h - 1)). lia.
+        * exact Hblen.
+        * unfold SInv. cbn [st_off st_k st_s1 st_s2 st_lastm st_cur st_ahead st_lmc st_rtoks].
+          rewrite dropZ_0. repeat split; try lia. constructor.
+  Qed.
+
+  Lemma rcov_wf rt q :
+    rcov rt q -> chunk < 2147483648 -> Z.of_nat (length sums) < 2147483648 -> Forall wf_token rt.
+  Proof.
+    intros Hr Hc Hs. induction Hr as [|bs rt q Hr IH Hbs Hlen Hq|i rt q Hr IH Hj]; constructor; auto.
+    - cbn [wf_token]. lia.
+    - cbn [wf_token]. destruct Hj as (Hi & _ & _ & s1 & Hnth).
+      assert (Z.to_nat i < length sums)%nat by (apply nth_error_Some; congruence). lia.
+  Qed.
+
   Theorem send_one_exact h' toks tr :
     send_one H seed chunk h sums target = SOk h' toks tr ->
     sums_legal -> no_collision ->
